@@ -59,6 +59,9 @@ type Model struct {
 	cmd *exec.Cmd
 	in  *bufio.Writer
 	out *bufio.Reader
+	// arguments (case ++ oracle table) of the last completed CallOracle: lets an oracle property contribute
+	// table-complete cases to the kernel re-evaluation sample
+	lastFull []int64
 }
 
 func StartModel(driver string) *Model {
@@ -70,7 +73,7 @@ func StartModel(driver string) *Model {
 		fmt.Fprintln(os.Stderr, "cannot start model driver:", err)
 		os.Exit(2)
 	}
-	return &Model{cmd, bufio.NewWriterSize(w, 1<<16), bufio.NewReaderSize(r, 1<<16)}
+	return &Model{cmd: cmd, in: bufio.NewWriterSize(w, 1<<16), out: bufio.NewReaderSize(r, 1<<16)}
 }
 
 func (m *Model) Call(num, sub int, args []int64) []int64 {
@@ -123,6 +126,7 @@ func (m *Model) CallOracle(p *Prop, sub int, args []int64) []int64 {
 			n++
 			continue
 		}
+		m.lastFull = full
 		return out
 	}
 	return []int64{NOFUEL}
@@ -244,6 +248,8 @@ type T struct {
 	C *Ctx
 	M *Model
 	R *rand.Rand
+	// oracle properties: the sub-0 arguments including the completed oracle table of the last evaluation
+	last0 []int64
 }
 
 func (c *Ctx) Quick() bool { return c.Tier != "thorough" }
@@ -304,6 +310,7 @@ func (t *T) eval2(in []int64) (*Failure, []int64) {
 	}
 	if p.Oracle != nil {
 		model = t.M.CallOracle(p, 0, in)
+		t.last0 = t.M.lastFull
 	} else {
 		model = t.M.Call(p.Num, 0, in)
 	}
@@ -367,6 +374,10 @@ func (t *T) Try(family string, in []int64, nontrivial bool) bool {
 	}
 	if len(c.kernel) < 150 && f == nil && len(in) < 400 && c.P.Oracle == nil {
 		c.kernel = append(c.kernel, [2][]int64{in, nil})
+	}
+	if len(c.kernel) < 150 && f == nil && c.P.Oracle != nil && t.last0 != nil && len(t.last0) < 2500 && c.evals%97 == 0 {
+		// oracle property: the case together with its completed table is a closed term the kernel can evaluate
+		c.kernel = append(c.kernel, [2][]int64{append([]int64{}, t.last0...), nil})
 	}
 	if f != nil {
 		c.nfail++
